@@ -175,6 +175,13 @@ def _rom_round(simname, kind, aw, dw, pre, rnd):
     o2 = pyrtl.Output(dw, 'o2')
     o <<= rom[a]
     o2 <<= rom[b]
+    # a second ROM with the SAME name and shape but other contents, read through the same address wire
+    # (memory names need not be unique; a pass must not confuse the two)
+    table2 = {x: (v ^ ((1 << dw) - 1)) if x % 2 else (v + 1) % (2 ** dw) for x, v in table.items()}
+    rom2 = pyrtl.RomBlock(bitwidth=dw, addrwidth=aw, romdata=[table2[x] for x in range(2 ** aw)], name='rom',
+                          asynchronous=True, max_read_ports=None)
+    o3 = pyrtl.Output(dw, 'o3')
+    o3 <<= rom2[a]
     block = pyrtl.working_block()
     for p in pre:
         block, _ = passes.get(p)(block)
@@ -182,8 +189,8 @@ def _rom_round(simname, kind, aw, dw, pre, rnd):
     for x in range(2 ** aw):
         y = (2 ** aw - 1) - x
         sim.step({'a': x, 'b': y})
-        g = (sim.inspect('o'), sim.inspect('o2'))
-        if g != (table[x], table[y]):
+        g = (sim.inspect('o'), sim.inspect('o2'), sim.inspect('o3'))
+        if g != (table[x], table[y], table2[x]):
             return dict(failed=True, observed=dict(addr=(x, y), value=g),
-                        expected=dict(value=(table[x], table[y])))
+                        expected=dict(value=(table[x], table[y], table2[x])))
     return dict(failed=False, observed='ok', expected='ok')
